@@ -58,6 +58,9 @@ def new_workdir(name: str) -> Path:
 
 
 def cleanup(d: Path) -> None:
+    if os.environ.get("VERIF_KEEP"):
+        print("kept work dir", d)
+        return
     shutil.rmtree(d, ignore_errors=True)
 
 
